@@ -35,6 +35,44 @@ def constants(exprs):
     return consts, funcs
 
 
+def ordered_constants(exprs):
+    """uninterpreted constants in order of first occurrence (pre-order, left to right, assertion by assertion)"""
+    out, seen, seen_c = [], set(), set()
+    for root in exprs:
+        todo = [root]
+        while todo:
+            e = todo.pop()
+            i = e.get_id()
+            if i in seen:
+                continue
+            seen.add(i)
+            if z3.is_app(e):
+                if e.num_args() == 0 and e.decl().kind() == z3.Z3_OP_UNINTERPRETED:
+                    if e.decl().name() not in seen_c:
+                        seen_c.add(e.decl().name())
+                        out.append(e)
+                else:
+                    todo.extend(reversed(e.children()))
+            elif z3.is_quantifier(e):
+                todo.append(e.body())
+    return out
+
+
+def positional_witness(phi, aux, target):
+    """Explicit witness for `exists aux. phi` when `target` was produced by the same code: the k-th private
+    constant of phi (first-occurrence order) is instantiated with the k-th private constant of target.
+    Returns phi with the substitution applied, or None when the two private lists do not line up.
+    A wrong guess can only make the instantiated query sat; callers then fall back to the quantified query."""
+    aux_names = {a.decl().name() for a in aux}
+    mine = [c for c in ordered_constants(phi) if c.decl().name() in aux_names]
+    shared = {c.decl().name() for c in ordered_constants(phi)} - aux_names
+    theirs = [c for c in ordered_constants(target) if c.decl().name() not in shared]
+    if len(mine) != len(theirs) or any(a.sort() != b.sort() for a, b in zip(mine, theirs)):
+        return None
+    sub = list(zip(mine, theirs))
+    return [z3.substitute(a, *sub) for a in phi] if sub else list(phi)
+
+
 XCHECK = {"on": False, "bin": "z3-new", "done": 0, "agree": 0, "other_unknown": 0, "disagree": []}
 
 
